@@ -196,6 +196,10 @@ func (h *handshake) makeDecodeErrCache(local, remote map[uint16]error) *sync.Map
 		localRegisteredErrors[v.Error()] = v
 	}
 	for k, v := range remote {
+		if v == nil {
+			// the peer may announce anything: an entry without an error is of no use
+			continue
+		}
 		if err, exist := localRegisteredErrors[v.Error()]; exist {
 			c.Store(k, err)
 			continue
